@@ -33,6 +33,7 @@ pub enum NamingRaftResult {
 pub struct InstanceRegisterParam {
     pub ip: Arc<String>,
     pub port: u32,
+    #[serde(deserialize_with = "deserialize_weight")]
     pub weight: f32,
     pub enabled: bool,
     pub healthy: bool,
@@ -44,6 +45,15 @@ pub struct InstanceRegisterParam {
     pub cluster_name: Option<String>,
     pub app_name: Option<String>,
     pub last_modified_millis: i64,
+}
+
+/// serde_json writes a non-finite f32 (`weight=NaN` is accepted by the open api) as `null`.
+/// Read it back as NaN: a raft log entry that was written must stay readable.
+fn deserialize_weight<'de, D>(deserializer: D) -> Result<f32, D::Error>
+where
+    D: serde::Deserializer<'de>,
+{
+    Ok(Option::<f32>::deserialize(deserializer)?.unwrap_or(f32::NAN))
 }
 
 impl From<InstanceRegisterParam> for Instance {
